@@ -290,7 +290,10 @@ func dumpV(kind string, v V) string {
 
 // nastyStrings are string contents inside C12's quantifier.
 func genNastyString(r *Rng) string {
-	switch r.Intn(14) {
+	switch r.Intn(15) {
+	case 14:
+		// characters to which other formats give a meaning
+		return r.Pick([]string{"it's", "pa$$w0rd", "$HOME/bin", "${USER}", "100%", "a$", "%s %d", "`x`", "$(id)", "~root", "a|b&c", "<tag>", "*?[x]", "$1", "%HOME%"})
 	case 0:
 		return ""
 	case 1:
